@@ -702,7 +702,7 @@ func main() {
 		os.Exit(126)
 	}
 	lib.Main("C30", func(c *lib.Ctx) {
-		c.Model("From PlzV Require Import Model.C30.", "C30.case", "C30.check")
+		c.Model("From PlzV Require Import Model.C30_deadline Model.C30.", "C30.case", "C30.check")
 		c.Rule("process trees run as real bash/sleep processes through process.ExecWithTimeout: 13 fixed shapes unsandboxed (plain sleep, SIGTERM ignored, " +
 			"background children and grandchildren, children holding or detached from the output pipes, setsid escapes, exits at/around the deadline, a 9-process tree), " +
 			"7 shapes run as sandboxed actions through an external sandbox tool (a two-line exec \"$@\" script; sandbox != NoSandbox), 3 through the builtin sandbox " +
@@ -711,7 +711,19 @@ func main() {
 			"plus random trees of 1-7 processes (parent, trap '' TERM, exec >/dev/null, setsid, setpgrp, life in {0, T/2, T-10, T, T+15, 30 s}, main sleeping or waiting, one in three through the sandbox tool), each with every timeout of the tier. " +
 			"A watchdog gives a call up 2.53 s after its timeout. " +
 			"distinct = distinct (tree, timeout); non-trivial = more than one process, or SIGTERM ignored, or a life within 20 ms of the deadline")
+		// second stream (deadline.go): where the deadline comes from
+		var drp struct {
+			Deadline *DeadlineInput `json:"deadline"`
+		}
+		if c.ReadReplay(&drp) && drp.Deadline != nil {
+			logging.SetBackend(logcap)
+			deadlineStream(c, drp.Deadline)
+			return
+		}
 		logging.SetBackend(logcap)
+		if c.Replay == "" {
+			deadlineStream(c, nil)
+		}
 		go canary()
 		markPrefix = fmt.Sprintf("c30_%d_", os.Getpid())
 		_, myPgid, mySid, _ = procStat(os.Getpid())
